@@ -864,24 +864,71 @@ func (g *gen) nested() string {
 	for i := 0; i < 1+g.r.Intn(6); i++ {
 		g.instr(p, s, g.r.Chance(1, 2))
 	}
-	// retSize retOff inSize inOff addr gas
-	p.push(big.NewInt(int64(g.r.Pick(0, 1, 31, 32, 33, 64, 100))))
-	p.push(g.small[g.r.Intn(len(g.small)-4)])
-	p.push(big.NewInt(int64(g.r.Pick(0, 1, 32, 33, 64, 96))))
-	p.push(g.small[g.r.Intn(len(g.small)-4)])
-	p.op(0x73)
-	p.op(calleeAddr.Bytes()...)
-	p.op(0x63, 0x0f, 0xff, 0xff, 0xff, 0xfa)
+	identity := g.r.Chance(1, 2)
+	inOff := g.small[g.r.Intn(len(g.small)-4)]
+	inSize := big.NewInt(int64(g.r.Pick(0, 1, 32, 33, 64, 96)))
+	retOff := g.small[g.r.Intn(len(g.small)-4)]
+	retSize := big.NewInt(int64(g.r.Pick(0, 1, 31, 32, 33, 64, 100)))
+	if identity {
+		// make sure the input window holds something recognisable
+		p.push(g.operand())
+		p.push(inOff)
+		p.op(MSTORE)
+		if g.r.Chance(2, 3) {
+			// output window away from the input window (the overlapping case is a recorded deviation)
+			retOff = new(big.Int).Add(inOff, big.NewInt(int64(128+32*g.r.Intn(4))))
+		}
+	}
+	// retSize retOff inSize inOff [value] addr gas
+	p.push(retSize)
+	p.push(retOff)
+	p.push(inSize)
+	p.push(inOff)
+	call := byte(0xfa)
+	if g.r.Chance(1, 3) {
+		call = 0xf1
+		p.pushU(0)
+	}
+	if identity {
+		p.pushU(4)
+	} else {
+		p.op(0x73)
+		p.op(calleeAddr.Bytes()...)
+	}
+	p.op(0x63, 0x0f, 0xff, 0xff, 0xff, call)
 	s.depth++
 	p.op(RETURNDATASIZE)
 	s.depth++
-	if g.r.Chance(2, 3) {
-		p.pushU(uint64(g.r.Pick(0, 1, 32, 64)))
+	// other opcodes run between the call and the look at its return data: random ones and
+	// writes aimed at the input / output windows
+	for i := 0; i < g.r.Intn(5); i++ {
+		switch g.r.Intn(4) {
+		case 0:
+			p.push(g.operand())
+			p.push(inOff)
+			p.op(MSTORE)
+		case 1:
+			p.push(g.operand())
+			p.push(new(big.Int).Add(inOff, big.NewInt(int64(g.r.Intn(40)))))
+			p.op(MSTORE8)
+		case 2:
+			p.pushU(uint64(g.r.Pick(1, 32, 40)))
+			p.pushU(uint64(g.r.Intn(8)))
+			p.push(inOff)
+			p.op(g.pick(CALLDATACOPY, CODECOPY))
+		default:
+			g.instr(p, s, true)
+		}
+	}
+	if g.r.Chance(4, 5) {
+		p.pushU(uint64(g.r.Pick(0, 1, 32, 33, 64)))
 		p.pushU(uint64(g.r.Pick(0, 0, 1, 32)))
-		p.pushU(uint64(g.r.Pick(0, 64, 128, 200)))
+		p.pushU(uint64(g.r.Pick(0, 64, 256, 300)))
 		p.op(RETURNDATACOPY)
 	}
-	for i := 0; i < g.r.Intn(5); i++ {
+	p.op(RETURNDATASIZE)
+	s.depth++
+	for i := 0; i < g.r.Intn(3); i++ {
 		g.instr(p, s, true)
 	}
 	p.dump(min(s.depth, 4), false)
